@@ -1,8 +1,8 @@
 SPECIFICATION Spec
 CONSTANTS
-  Params <- SendDup
-  MaxBase = 1000000
-  MaxHist = 1000000
+  Params <- RecvBigW
+  MaxBase = 5
+  MaxHist = 6
 VIEW View
 ACTION_CONSTRAINT PrintScript
 CHECK_DEADLOCK FALSE
